@@ -323,6 +323,14 @@ func (e *Engine) VerifyFunc(key string) (res *FuncResult) {
 		rc.returns++
 		e.curExt = st2.ext
 		post := e.specEnvFor(fn, spec, args, rets, &st2.heap, &rc.entry.heap, false)
+		// named locals at this return point (never shadowing parameters or results)
+		if e.retFrame != nil && e.retFrame.fn == fn && e.retBlock != nil {
+			for name, sv := range e.localsAt(e.retFrame, e.retBlock, st2) {
+				if _, taken := post.vars[name]; !taken {
+					post.vars[name] = sv
+				}
+			}
+		}
 		fr := &frame{fn: fn}
 		rc.outputs = e.outputTerms(fn, rets, &st2.heap)
 		defer func() { rc.outputs = nil }()
